@@ -54,6 +54,8 @@ CHECKS = {
             'text': 'Facet: Kani proves that DateTime equality and ordering (through ScalarCow) are chronological for two instants within +-100000 s of a base date, each displayed in any whole-hour offset -12..+14. strftime directive semantics and parse/print round-trips are not covered yet (see DESIGN.md).'},
     'C13': {'engine': 'E2-mirsym', 'technique': T_MIR, 'note': N_MIR + '; strings are lists of symbolic code points (byte lengths derived from utf8_len); one grapheme per code point (no combining marks)',
             'text': 'Real MIR of 19 string filters (slice, truncate, strip, lstrip, rstrip, strip_newlines, upcase, downcase, capitalize, append, prepend, replace, replace_first, remove, remove_first, newline_to_br, first, last, size) on strings of 0..3 (quick) / 0..4 (thorough) symbolic Unicode characters with symbolic arguments, each compared with an independent symbolic reference of its documented function for every value, and FilterChain::evaluate over 0..4 abstract filters (left-to-right composition, first error wins). Not covered: split, join, truncatewords, default, multi-character case expansions, combining marks. One known finding (truncate decides by byte length) is recorded: the repository suite pins that behaviour.'},
+    'C16': {'engine': 'E2-mirsym', 'technique': T_MIR, 'note': N_MIR + '; strings are lists of symbolic code points, byte offsets are made path-concrete by forking every character into its UTF-8 length class; the percent-encoding and regex crates (outside the repository) are models validated against the native libraries on concrete strings',
+            'text': 'Real MIR of html.rs escape()/nr_escaped() (escape and escape_once) on every string of 0..3 (quick) / 0..4 (thorough) symbolic Unicode characters plus entity-shaped strings (&, all but the last two characters of each entity name, then symbolic characters): output alphabet, equality with a declarative reference scan, idempotence of escape_once by running it again on its symbolic output. Real MIR of url_encode/url_decode with the encode set computed from the FRAGMENT constant in the MIR: output alphabet, reference encoding, decode(encode(s)) == s, "+ then %XX then strict UTF-8 or error" on general and escape-shaped strings. strip_html: the four MATCHERS patterns are read from the MIR and interpreted by a model of the regex crate for the shape (?flags)PREFIX.*?SUFFIX; no "<" is followed by ">" in the output for every string of 0..6 / 0..8 characters. Any other regex shape is inconclusive.'},
     'C02': {'engine': 'E2-mirsym', 'technique': T_MIR, 'note': N_MIR + '; obligations borrowed from C05/C07/C13/C15 keep their stubs; only their panic roles count here',
             'text': 'Totality facets (panic-freedom, no division by zero, no out-of-range index, no split character) of the kernels that index, slice, divide or loop: cycle parsing + position arithmetic, integer ranges and loop attributes, iter_array, For/TableRow::render_to (symbolic cols incl. 0), augmented_get (every i64 index), slice and truncate on symbolic Unicode strings, plus/minus/times/divided_by/modulo/abs. Filters not listed (other string filters, html/url, date, sort, jekyll/shopify/extra) and the valid-UTF-8 clause are not covered.'},
 }
@@ -63,5 +65,5 @@ NOT_APPLICABLE = {
     'C09': 'quantifies over histories of whole parse+render calls; needs the pest parser and HashMap-backed registers inside the solver (measured out of reach) or a frame condition that is a typing fact, not a solver query (DESIGN.md §5)',
     'C20': 'quantifies over thread schedules; Kani does not support concurrency and the MIR executor has no interleaving semantics (DESIGN.md §5)',
 }
-for _p in ['C14', 'C16', 'C19']:
+for _p in ['C14', 'C19']:
     NOT_APPLICABLE.setdefault(_p, NOT_BUILT)
